@@ -597,6 +597,40 @@ def materialise(case, tmp: Path) -> Path:
         elif what == "no-metadata":
             shutil.rmtree(dst / "Metadata")
         return dst
+    if kind == "pkg-os":   # a package folder whose parts exist as names but fail at the OS level when read
+        _, _, what = case
+        shutil.copytree(fx, dst)
+        idx, pl = dst / "Index.zip", dst / "Metadata" / "Properties.plist"
+        if what.startswith("index-") and not idx.is_file():
+            # this package keeps its archives in an Index/ folder: the same fault on its first archive file
+            idx = next(iter(sorted(dst.rglob("*.iwa"))), None)
+        if what == "index-dangling-symlink" and idx is not None:
+            idx.unlink()
+            idx.symlink_to(dst / "no-such-target.zip")
+        elif what == "index-is-directory" and idx is not None:
+            idx.unlink()
+            idx.mkdir()
+        elif what == "plist-is-directory" and pl.is_file():
+            pl.unlink()
+            pl.mkdir()
+        elif what == "plist-dangling-symlink" and pl.is_file():
+            pl.unlink()
+            pl.symlink_to(dst / "nothing.plist")
+        elif what == "iwa-is-directory":
+            for p in sorted(dst.rglob("*.iwa"))[:1]:
+                p.unlink()
+                p.mkdir()
+        return dst
+    if kind == "tilde":    # relative names that begin with '~' (editor back-ups, office lock files, '~user' forms)
+        _, src_name, name, present = case
+        p = tmp / name
+        if p.parent != tmp:
+            return Path(name)          # '~nosuchuser/x.numbers': relative, never created
+        if p.exists():
+            p.unlink()
+        if present:
+            shutil.copy(common.REPO / "tests/data" / src_name, p)
+        return Path(name)              # opened relative to the working directory (tmp)
     raise ValueError(case)
 
 
@@ -614,10 +648,25 @@ def loader_fixture(name: str, tmp: Path) -> Path:
     return common.REPO / "tests/data" / name
 
 
-def glue_case(case, tmp: Path):
-    """-> (signature, detail) if the property is violated on this case."""
+def glue_case(case, tmp: Path, debug_logging: bool = False):
+    """-> (signature, detail) if the property is violated on this case.  With debug_logging the process-wide logging
+    level is DEBUG while the document is opened (as under `cat-numbers --debug` or an application's basicConfig)."""
+    import logging
     p = materialise(case, tmp)
-    kind, det = try_document(p)
+    cwd = os.getcwd()
+    lg, root = logging.getLogger("numbers_parser"), logging.getLogger()
+    old_levels = (lg.level, root.level)
+    try:
+        if case[0] == "tilde":
+            os.chdir(tmp)
+        if debug_logging:
+            lg.setLevel(logging.DEBUG)
+            root.setLevel(logging.DEBUG)
+        kind, det = try_document(p)
+    finally:
+        os.chdir(cwd)
+        lg.setLevel(old_levels[0])
+        root.setLevel(old_levels[1])
     return kind, det
 
 
@@ -667,6 +716,12 @@ def glue_cases(ctx: Ctx, nflips: int):
                 cases.append(["pkg", fxn, what, r + (rng.randrange(1000) if what == "index-flip" else 0)])
     for hx in ("", "00", "504b0506" + "00" * 18, "504b0304", "ff" * 64, "504b0102" + "00" * 60):
         cases.append(["foreign", "", hx])
+    for fxn in ("test-7.numbers", "test-5.numbers"):
+        for what in ("index-dangling-symlink", "index-is-directory", "plist-is-directory", "plist-dangling-symlink", "iwa-is-directory"):
+            cases.append(["pkg-os", fxn, what])
+    for name, present in (("~budget.numbers", False), ("~budget.numbers", True), ("~$budget.numbers", True), ("~nosuchuser-xyz/x.numbers", False),
+                          ("~.numbers", False), ("~budget.txt", True)):
+        cases.append(["tilde", "simple-func.numbers", name, present])
     return cases
 
 
@@ -802,6 +857,18 @@ def run(ctx: Ctx) -> int:
             fail("glue", f"wrong-class:{case[0]}", case, f"Document() on {case}: expected {want}, got {kind} {det}")
     for k, v in sorted(tally.items()):
         ctx.dist(k, v)
+    # ---------- the same kinds of damage with the process' logging level at DEBUG
+    allc = glue_cases(ctx, 40)
+    sample = [c for c in allc if c[0] in ("missing", "suffix", "drop-iwa", "iwph", "plist", "foreign", "pkg", "pkg-os")][:: 2 if ctx.quick else 1]
+    sample += [c for c in allc if c[0] in ("flip", "member", "trunc")][:: 6 if ctx.quick else 1]
+    for case in sample:
+        try:
+            kind, det = glue_case(case, ctx.tmp, debug_logging=True)
+        except Exception as e:  # noqa: BLE001
+            kind, det = "oracle-crash", f"{type(e).__name__}: {e}"
+        ctx.count("glue-debug-logging")
+        if kind in ("escape", "oracle-crash"):
+            fail("glue", "escape-with-debug-logging:" + det, ["debug-logging", case], f"Document() on {case} with logging at DEBUG: {det} escaped from container loading")
     # ---------- the bundled command-line tool reports the problem instead of crashing
     for sig, case, detail in cli_oracle(ctx):
         fail("glue", sig, case, detail)
@@ -829,14 +896,27 @@ def cli_oracle(ctx: Ctx):
     blob = src.read_bytes() if src.is_file() else b""
     names = ["plain.numbers", "Budget%202024.numbers", "100%.numbers", "50% off %s.numbers", "a{0}b{}.numbers", "sp ace's \u00e9.numbers",
              "%(name)s.numbers", "wrong-suffix.txt", "%d.txt"]
-    kinds = ["missing", "empty", "truncated", "not-zip", "bitflip"]
+    kinds = ["missing", "empty", "truncated", "not-zip", "bitflip", "pkg-index-dangling", "pkg-plist-is-dir"]
     rng = ctx.rng
     d = ctx.tmp / "cli"
     d.mkdir(exist_ok=True)
     for name in names:
         for kind in kinds:
             p = d / f"{kind}-{name}"
-            if kind == "empty":
+            if kind.startswith("pkg-"):
+                if not name.endswith(".numbers"):
+                    continue
+                pkg = common.REPO / "tests" / "data" / "test-7.numbers"
+                if p.exists():
+                    shutil.rmtree(p)
+                shutil.copytree(pkg, p)
+                if kind == "pkg-index-dangling":
+                    (p / "Index.zip").unlink()
+                    (p / "Index.zip").symlink_to(p / "gone.zip")
+                else:
+                    (p / "Metadata" / "Properties.plist").unlink()
+                    (p / "Metadata" / "Properties.plist").mkdir()
+            elif kind == "empty":
                 p.write_bytes(b"")
             elif kind == "truncated":
                 p.write_bytes(blob[: max(1, len(blob) // 3)])
@@ -869,7 +949,7 @@ def cli_oracle(ctx: Ctx):
                 case = ["cli", kind, name, opts]
                 if exc is not None:
                     out.append((f"cli-crash:{type(exc).__name__}", case, f"cat-numbers {opts} {p.name!r} ({kind}) crashed with {type(exc).__name__}: {exc}"))
-                elif kind in ("missing", "empty", "not-zip") or name.endswith(".txt"):
+                elif kind in ("missing", "empty", "not-zip", "pkg-index-dangling", "pkg-plist-is-dir") or name.endswith(".txt"):
                     lines = [x for x in err.getvalue().splitlines() if x.strip()]
                     if status != 1 or len(lines) != 1:
                         out.append(("cli-error-not-reported", case,
@@ -947,7 +1027,11 @@ def replay(path: str) -> int:
     else:
         tmp = Path(tempfile.mkdtemp(prefix="verif_C17_replay_"))
         try:
-            kind, det = glue_case(case, tmp)
+            if case[0] == "debug-logging":
+                case = case[1]
+                kind, det = glue_case(case, tmp, debug_logging=True)
+            else:
+                kind, det = glue_case(case, tmp)
         finally:
             shutil.rmtree(tmp, ignore_errors=True)
         if kind == "escape":
